@@ -219,6 +219,8 @@ int read_macho(
     macho_header.reserved = file.get_int32();
   }
 
+  const long marker_commands = file.tell();
+
   int bits = (macho_header.cpu_type & 0x01000000) == 0x01000000 ? 64 : 32;
   if (bits == 64) { macho_header.cpu_type ^= 0x01000000; }
 
@@ -238,6 +240,16 @@ int read_macho(
       break;
   }
 
+  const uint64_t file_length = file.get_file_length();
+  file.set(marker_commands);
+
+  // Every load command is at least 8 bytes of the file.
+  if (macho_header.load_command_count > file_length / 8)
+  {
+    printf("Mach-O Error: load command count is bigger than the file\n");
+    return -1;
+  }
+
   for (uint32_t i = 0; i < macho_header.load_command_count; i++)
   {
     macho_load_command.type = file.get_int32();
@@ -252,6 +264,13 @@ int read_macho(
         // LC_SEGMENT_64
         macho_read_segment_load(macho_segment_load, file, bits);
 
+        // Every section header is at least 68 bytes of the file.
+        if (macho_segment_load.section_count > file_length / 68)
+        {
+          printf("Mach-O Error: section count is bigger than the file\n");
+          return -1;
+        }
+
         for (uint32_t n = 0; n < macho_segment_load.section_count; n++)
         {
           macho_read_section(macho_section, file, bits);
@@ -259,6 +278,14 @@ int read_macho(
           if (strcmp(macho_section.section_name, "__text") == 0)
           {
             long marker = file.tell();
+
+            if (macho_section.offset > file_length ||
+                macho_section.size > file_length - macho_section.offset)
+            {
+              printf("Mach-O Error: __text reaches past the end of the file\n");
+              return -1;
+            }
+
             file.set(macho_section.offset);
 
             for (uint32_t t = 0; t < macho_section.size; t++)
@@ -283,6 +310,16 @@ int read_macho(
         char name[128];
 
         long marker = file.tell();
+
+        // Every symbol is at least 12 bytes of the file.
+        if (macho_symtab.symbol_table_offset > file_length ||
+            macho_symtab.symbol_count >
+              (file_length - macho_symtab.symbol_table_offset) / 12)
+        {
+          printf("Mach-O Error: symbol table reaches past the end of the file\n");
+          return -1;
+        }
+
         file.set(macho_symtab.symbol_table_offset);
 
         for (uint32_t n = 0; n < macho_symtab.symbol_count; n++)
